@@ -183,3 +183,127 @@ func (x *Tx) SetKey(o uint32, k string) {
 	}
 	x.keyEnd(err != nil)
 }
+
+// ---- the same calls as one-call shortcuts of the collection (each wraps a whole transaction) ----
+// What a transaction logs after its callback (the key write the library buffers after the callback, kend,
+// commitstart) is logged at the end of the callback: nothing but that key write and the commit follows it.
+
+func (c *Coll) keyName() string {
+	for _, d := range c.Cols {
+		if d.Kind == "key" {
+			return d.Name
+		}
+	}
+	panic("no key column")
+}
+
+func (c *Coll) shortKey(t, fn, k string, call func(kc *keyCall, body func(r column.Row, created bool) error) error, ws []W, fail, read bool, flavor int) {
+	tr := c.W.T
+	tr.Log(Ev{"e": "begin", "t": t, "c": c.Name})
+	kc := &keyCall{fn: fn, k: k}
+	keyMiss.Store(t, kc)
+	called := false
+	err := call(kc, func(r column.Row, created bool) error {
+		called = true
+		at := r.Index()
+		c.W.Track(at)
+		if created {
+			tr.Log(Ev{"e": "reserve", "t": t, "o": int(at)})
+		} else {
+			tr.Log(Ev{"e": "kchk", "t": t, "fn": fn, "k": k, "found": true, "o": int(at)})
+		}
+		if read && flavor != 1 {
+			vals := Ev{}
+			for _, d := range c.Cols {
+				vals[d.Name] = c.ReadRow(nil, r, d, flavor)
+			}
+			tr.Log(Ev{"e": "read", "t": t, "o": int(at), "vals": vals})
+		}
+		for _, w := range ws {
+			d, _ := c.Desc(w.Col)
+			c.Write(t, r, d, w.K, w.V)
+		}
+		if fail {
+			return ErrFail
+		}
+		if created {
+			tr.Log(Ev{"e": "w", "t": t, "n": c.keyName(), "k": "put", "o": int(at), "v": k})
+		}
+		tr.Log(Ev{"e": "kend", "t": t, "err": false})
+		tr.Log(Ev{"e": "commitstart", "t": t})
+		return nil
+	})
+	keyMiss.Delete(t)
+	switch {
+	case !called && err != nil:
+		// refused before the callback: the key exists (insert) / is absent (query)
+		if !kc.missed {
+			o := 0
+			if i := strings.LastIndex(err.Error(), "offset "); i >= 0 {
+				for _, ch := range err.Error()[i+7:] {
+					if ch < '0' || ch > '9' {
+						break
+					}
+					o = o*10 + int(ch-'0')
+				}
+			}
+			if fn == "ins" {
+				c.W.Track(uint32(o))
+			}
+			tr.Log(Ev{"e": "kchk", "t": t, "fn": fn, "k": k, "found": fn == "ins", "o": o})
+		}
+		tr.Log(Ev{"e": "kend", "t": t, "err": true})
+		tr.Log(Ev{"e": "rollback", "t": t, "fired": c.takeFired()})
+	case called && err != nil:
+		tr.Log(Ev{"e": "mismatch", "what": "key shortcut: the callback succeeded and the call returned an error: " + err.Error()})
+	case !called:
+		tr.Log(Ev{"e": "mismatch", "what": "key shortcut: no callback and no error"})
+	}
+}
+
+// ShortInsertKey: Collection.InsertKey (the callback never fails here: a failing insert callback inside a
+// committing transaction is the catalogued D-failed-insert-applied and is driven by the Tx form).
+func (c *Coll) ShortInsertKey(t, k string, ws []W) {
+	c.shortKey(t, "ins", k, func(kc *keyCall, body func(column.Row, bool) error) error {
+		return c.C.InsertKey(KeyTokens[k], func(r column.Row) error { return body(r, true) })
+	}, ws, false, false, 0)
+}
+
+func (c *Coll) ShortUpsertKey(t, k string, ws []W) {
+	c.shortKey(t, "ups", k, func(kc *keyCall, body func(column.Row, bool) error) error {
+		return c.C.UpsertKey(KeyTokens[k], func(r column.Row) error { return body(r, kc.missed) })
+	}, ws, false, false, 0)
+}
+
+func (c *Coll) ShortQueryKey(t, k string, ws []W, flavor int) {
+	c.shortKey(t, "qry", k, func(kc *keyCall, body func(column.Row, bool) error) error {
+		return c.C.QueryKey(KeyTokens[k], func(r column.Row) error { return body(r, false) })
+	}, ws, false, true, flavor)
+}
+
+// ShortDeleteKey: Collection.DeleteKey; where the key points is looked up just before (nothing runs in between),
+// the decision is logged ahead of the call and compared with what it returns.
+func (c *Coll) ShortDeleteKey(t, k string) {
+	tr := c.W.T
+	tr.Log(Ev{"e": "begin", "t": t, "c": c.Name})
+	found, at := false, uint32(0)
+	c.C.QueryKey(KeyTokens[k], func(r column.Row) error { found, at = true, r.Index(); return nil })
+	if found {
+		c.W.Track(at)
+	}
+	tr.Log(Ev{"e": "kchk", "t": t, "fn": "del", "k": k, "found": found, "o": int(at)})
+	if found {
+		tr.Log(Ev{"e": "kdel", "t": t, "o": int(at)})
+		tr.Log(Ev{"e": "kend", "t": t, "err": false})
+		tr.Log(Ev{"e": "commitstart", "t": t})
+	} else {
+		tr.Log(Ev{"e": "kend", "t": t, "err": true})
+	}
+	err := c.C.DeleteKey(KeyTokens[k])
+	if !found {
+		tr.Log(Ev{"e": "rollback", "t": t, "fired": c.takeFired()})
+	}
+	if (err == nil) != found {
+		tr.Log(Ev{"e": "mismatch", "what": "Collection.DeleteKey: error iff the key is absent", "err": err != nil, "found": found})
+	}
+}
